@@ -656,8 +656,10 @@ impl<'a> RefRemapper<'a> {
 				None
 			}
 			Search::Dfs | Search::DfsStopAtUnmapped => {
-				fn go(r: &RefRemapper, c: &str, name: &str, desc: &str, method: bool, stop: bool, depth: usize) -> Option<(String, (String, String))> {
-					if depth > 100_000 {
+				fn go(r: &RefRemapper, c: &str, name: &str, desc: &str, method: bool, stop: bool, depth: usize, seen: &mut BTreeSet<String>) -> Option<(String, (String, String))> {
+					// a type that was searched without a hit cannot give one the second time: skipping it keeps the first-hit order
+					// and bounds the walk (diamonds are walked once, a cyclic graph terminates)
+					if depth > 3_000 || !seen.insert(c.to_string()) {
 						return None;
 					}
 					if stop && !r.by_from.contains_key(c) {
@@ -667,13 +669,13 @@ impl<'a> RefRemapper<'a> {
 						return Some((c.to_string(), x));
 					}
 					for s in r.inh.get(c).into_iter().flatten() {
-						if let Some(x) = go(r, s, name, desc, method, stop, depth + 1) {
+						if let Some(x) = go(r, s, name, desc, method, stop, depth + 1, seen) {
 							return Some(x);
 						}
 					}
 					None
 				}
-				go(self, owner, name, desc, method, search == Search::DfsStopAtUnmapped, 0)
+				go(self, owner, name, desc, method, search == Search::DfsStopAtUnmapped, 0, &mut BTreeSet::new())
 			}
 		}
 	}
